@@ -11,7 +11,7 @@ TECHNIQUE = ('runtime monitoring of call histories: every call of an enumerated 
 RULE = ('class = (object kind, call sequence) and (object kind, faulted call, injection point, following call); per kind a call alphabet '
         '(default call, each optional per-call parameter, short/empty/long input, partial update, naturally raising calls); ALL sequences of '
         'length <= 2 (quick) / <= 3 (thorough) over each alphabet, random longer sequences, sibling-instance and shared-singleton '
-        'interleavings; failpoints: every alphabet call interrupted at sampled (quick) or all (thorough, capped) executed crysp lines, then '
+        'interleavings; failpoints: every alphabet call interrupted at 5 (quick) / 150 (thorough) of its executed crysp lines (evenly spread plus random ones; all lines when the call executes fewer), then '
         'every alphabet call on the same object; oracle = the same call on a freshly constructed, equally configured object')
 ASSUMPTIONS = ['the oracle is crysp itself on a fresh object (the property is history-independence; correctness of fresh objects is C01-C19)',
                'stream objects that are continuous by contract (RC4, Keccak.duplex, explicit update chains) are not in the alphabets',
